@@ -229,6 +229,22 @@ func setField(fv reflect.Value, a J) {
 		}
 		fv.SetFloat(f)
 	case "int":
+		if big, ok := a["s"].(string); ok {
+			if fv.Kind() == reflect.Uint {
+				u, err := strconv.ParseUint(big, 10, 64)
+				if err != nil {
+					panic(err)
+				}
+				fv.SetUint(u)
+			} else {
+				i, err := strconv.ParseInt(big, 10, 64)
+				if err != nil {
+					panic(err)
+				}
+				fv.SetInt(i)
+			}
+			return
+		}
 		if fv.Kind() == reflect.Uint {
 			fv.SetUint(uint64(num(a["n"])))
 		} else {
@@ -390,6 +406,13 @@ func projectField(fv reflect.Value) J {
 			n = int64(fv.Uint())
 		} else {
 			n = fv.Int()
+		}
+		if fv.Kind() == reflect.Uint && fv.Uint() > 2147483647 {
+			// beyond what a TLC integer holds: carried as decimal text (records are compared structurally)
+			return J{"k": "int", "n": 0, "s": strconv.FormatUint(fv.Uint(), 10)}
+		}
+		if n > 2147483647 || n < -2147483647 {
+			return J{"k": "int", "n": 0, "s": strconv.FormatInt(n, 10)}
 		}
 		if n == 0 {
 			return nil
